@@ -18,6 +18,9 @@ CHECKS = {
  "C19": dict(cat="model_checking", ref="5.19", engine="gomc-seq", tech="exhaustive small-scope enumeration of inputs to the real sorter against a lexicographic reference comparison",
    text="Every slice of length 0..4 (5 thorough) over 8 node kinds (id x port x last error) crossed with every key sequence of length 1..3 over {ID, Port, LastNodeError} is sorted by the real OrderedBy(...).Sort and compared with the lexicographic reference order (permutation + adjacent pairs); each key is checked against the strict-weak-ordering axioms on all pairs and triples of kinds.",
    note="Trusted base: the enumerator and reference comparison in /verif/checks/c19.go; last errors are set through an accessor injected by overlay."),
+ "C13": dict(cat="model_checking", ref="5.13", engine="gomc-seq", tech="exhaustive small-scope enumeration of codec inputs (all byte strings up to a length, structured mutations, every registry name) on the real codec, plus scheduled end-to-end runs",
+   text="Round trip of every registered method x direction x message value x metadata (all status codes) through the real Codec; decoding of every byte string of length <= 2 (3 thorough) in both directions and of every prefix / byte substitution / length-prefix perturbation / part swap of valid frames, with every full name of the linked protobuf registry (all descriptor kinds) in the method field; end-to-end under the scheduler: every status code from a handler reaches RPC and quorum-call callers unchanged, and hostile frames injected into live client and server streams never panic a library thread.",
+   note="Trusted base: enumerator in /verif/checks/c13.go; registry = what is linked into the harness (gorums, ordering, dev/zorums, well-known types, grpc status); end-to-end part uses the fakegrpc transport, which runs the real codec on every frame."),
 }
 
 NOT_YET = {}
